@@ -91,6 +91,8 @@ func (e *DocumentError) SetIncorrectUserType(s string) {
 
 func (e *DocumentError) SetFile(file *fs.File) {
 	e.file = file
+	// The length and the line break are those of the previous file.
+	e.prepared = false
 }
 
 func (e *DocumentError) SetMessage(message string) {
